@@ -311,6 +311,10 @@ pub struct Case {
     pub extra_handlers: Vec<HandlerSpec>,
     #[serde(default, skip_serializing_if = "Option::is_none")]
     pub alt_max_mem: Option<usize>,
+    /// selector ASTs (C04/C05): handler i of kind Element/Text/Comment with a selector uses sels[k]
+    /// in order of appearance; the scenario carries their printed CSS
+    #[serde(default, skip_serializing_if = "Vec::is_empty")]
+    pub sels: Vec<crate::refmodel::select::SelList>,
     /// free-form mode selector of the property's check (e.g. "sweep1", "prefix")
     #[serde(default, skip_serializing_if = "String::is_empty")]
     pub mode: String,
@@ -318,7 +322,7 @@ pub struct Case {
 
 impl Case {
     pub fn of(sc: Scenario) -> Self {
-        Case { sc, extra_handlers: vec![], alt_max_mem: None, mode: String::new() }
+        Case { sc, extra_handlers: vec![], alt_max_mem: None, sels: vec![], mode: String::new() }
     }
 }
 
